@@ -342,6 +342,10 @@ func runC11(c *vlib.Ctx) {
 		jobs, names = []string{string(jb)}, []string{rf.Replay.Scenario}
 		c.Set("replayed", c.ReplayFile)
 	}
+	if os.Getenv("VERIF_C11_RACEONLY") != "" { // debugging aid; registered commands never set it
+		c11RacePass(c, 3)
+		return
+	}
 	var states, transitions int64
 	if c.ReplayFile != "" {
 		states, transitions = c11Collect(c, "", names, vlib.Pool("c11", nil, 16, jobs))
@@ -357,6 +361,9 @@ func runC11(c *vlib.Ctx) {
 			rounds = 200
 		}
 		c11FreePass(c, rounds)
+		if c.Thorough() {
+			c11RacePass(c, 10)
+		}
 	}
 	c.Set("states", states)
 	c.Set("transitions", transitions)
